@@ -407,6 +407,9 @@ pub fn finalize(
             floor.max(2)
         ));
     }
+    if merged.samples.is_empty() {
+        run_inconclusive.push("no sample case was recorded".to_string());
+    }
     for e in &merged.harness_errors {
         run_inconclusive.push(format!("harness error: {e}"));
     }
